@@ -1717,6 +1717,12 @@ func obsPoint(pm edge.PointMessage) string {
 // execCase runs the op lines of one case and returns them with observations. `final`/`quiesce` lines are
 // (re)generated from what was started, so a shrunk or hand-written case needs none.
 func execCase(ops []string) (out []string, hung string) {
+	if len(ops) == 1 {
+		if t := strings.Fields(ops[0]); len(t) >= 3 && t[0] == "hammer" {
+			n, _ := strconv.Atoi(t[2])
+			return hammerCase(t[1], n), ""
+		}
+	}
 	r := &runner{running: map[string]*taskDef{}, everDef: map[string]int{}, expected: map[string]int{}, waitLimit: 8 * time.Second,
 		wrote: map[int64]*wpoint{}, epochs: map[string][]epoch{}, batch: map[string]string{}}
 	if s := os.Getenv("VERIF_C02_WAIT_MS"); s != "" {
@@ -2059,6 +2065,9 @@ func Run(args []string) int {
 		return 0
 	}
 	r := kit.NewRand(f.Seed)
+	if f.Tier == "hammerchild" {
+		return hammerChild(f.Extra["variant"], f.N)
+	}
 	if f.Tier == "racechild" {
 		// child process built with -race: concurrent-writer heavy cases
 		for i := 0; i < f.N; i++ {
@@ -2080,6 +2089,14 @@ func Run(args []string) int {
 			fmt.Fprintf(os.Stderr, "c02: %s did not return within %v in case g%d: the real code hangs\n", hung, hangLimit, i)
 			return 3
 		}
+	}
+	// the interleavings inside one forkPoint (hammer.go): every variant once per seed job
+	for i, v := range hammerVariants {
+		hn := 40000
+		if v == "task" {
+			hn = 20000
+		}
+		emit(out, fmt.Sprintf("h%d", i), hammerCase(v, hn))
 	}
 	return 0
 }
